@@ -339,6 +339,12 @@ func (cs *clientStream) SendMsg(m interface{}) error {
 	}
 
 	cs.wErr = writeProtoMessage(cs.w, cs.codec, m, false)
+	if cs.wErr != nil {
+		if done, _ := cs.readErrorIfDone(); done {
+			// the write failed because the call has finished in the meantime
+			return io.EOF
+		}
+	}
 	return cs.wErr
 }
 
